@@ -357,3 +357,25 @@ META["C18"] = {
     "LEVEL_NOTE": "Trusted: the mp implementation of HNW II.4 in checks/c18.py.",
     "TECHNIQUE": "seeded degenerate-input generation plus bounded-liveness simulation (adaptive run from the proposal within an attempt budget)",
 }
+
+META["C20"] = {
+    "LEVEL": "fault_enumeration",
+    "TIERS": {"quick": 277, "thorough": 277},
+    "WALLCAP": {"quick": 300, "thorough": 600},
+    "EXHAUSTIVE": {"quick": True, "thorough": True},
+    "RULE": ("Complete enumeration of a table of 277 entries: valid call recipes for the constructors / entry points named in the "
+             "property (Wiener and diffuse priors, transition(), exactness flags, Taylor-coefficient containers, constraint "
+             "constructors, both losses, residual-based error estimate, lift orders, exponential priors, jet expansion, matrix-free "
+             "ensemble size, three strategy/routine pairings) x dense / isotropic / block-diagonal x single-field corruptions (wrong "
+             "rank, length, tree structure, dtype, object type, inadmissible value) plus 39 control entries (the uncorrupted call "
+             "must work) and 9 warning entries. One evaluation = one entry; distinct = distinct entry id; all are non-trivial."),
+    "COMPONENTS": {"real": ["all public constructors / entry points listed in the rule"], "stub": [], "seam": ["caller arguments (F9)"]},
+    "PROBES": ["raised", "controls_ok"],
+    "ASSUMPTIONS": ["corruptions the documented API accepts (e.g. scalar exactness leaves for the dense model, a single-number "
+                    "residual std for the isotropic model) are not in the table",
+                    "the table is finite and hand-written: it enumerates its own 277 entries, not 'every public entry point'"],
+    "LEVEL_TEXT": "Fault enumeration: every (recipe, single-field corruption, factorisation) entry of a finite table is executed; "
+                  "the oracle is 'raises at construction or first use, never numbers' and 'warns naming the remedy'.",
+    "LEVEL_NOTE": "Trusted: the recipes in checks/c20.py; controls guard against recipes that fail for unrelated reasons.",
+    "TECHNIQUE": "fault enumeration: single-field argument corruption of valid call recipes across the three factorisations, with control entries",
+}
